@@ -1,7 +1,7 @@
 SPECIFICATION Spec
 CONSTANTS
   MaxOps = 3
-  UnitKinds = {"set32", "set64", "getp"}
+  UnitKinds = {"set32", "set64", "getp", "getq"}
   MaxPos = 3
 INVARIANTS
   TreeShaped
